@@ -855,3 +855,13 @@ VARIANTS += [
     dict(prop="C03", name="challenge-span-one-short", expect="RANGE-challenge|shape",
          edits=[dict(file="ipa-core/src/helpers/hashing.rs", find="    F::truncate_from(val % (prime - exclude_to) + exclude_to)", replace="    F::truncate_from(val % (prime - exclude_to - 1) + exclude_to)")]),
 ]
+
+BTF = "ipa-core/src/protocol/context/batcher.rs"
+VARIANTS += [
+    dict(prop="C16", name="batch-threshold-ignores-short-last-batch", expect="INDEX-arith|batch-position-size",
+         edits=[dict(file=BTF, find="        let total_count = min(self.records_per_batch, remaining_records);", replace="        let total_count = min(self.records_per_batch, remaining_records.max(self.records_per_batch));")]),
+    dict(prop="C16", name="batch-position-from-batch-offset-only", expect="INDEX-arith|batch-position-size",
+         edits=[dict(file=BTF, find="        let record_offset_in_batch = usize::from(record_id) - first_record_in_batch;", replace="        let record_offset_in_batch =\n            usize::from(record_id) - batch_offset * self.records_per_batch;")]),
+    dict(prop="C16", name="batch-position-by-modulo", benign=True,
+         edits=[dict(file=BTF, find="        let record_offset_in_batch = usize::from(record_id) - first_record_in_batch;", replace="        let record_offset_in_batch = usize::from(record_id) % self.records_per_batch;")]),
+]
